@@ -323,26 +323,28 @@ theorem udw_good {W : Addr → Prop} {m0 : Mem} :
     · -- list
       split at he
       · cases he
-      · rename_i xs _
-        split at he
+      · split at he
         · cases he; exact ⟨g1, gpv⟩
         · split at he
           · cases he
           · rename_i m2 xs' pvs hs
-            cases he
-            obtain ⟨g2, g3⟩ := udSeq_good hrec path _ _ _ _ _ _ g1 hs
-            exact udGood_append (pres_alloc g2 _ _) gpv g3
+            split at he
+            · cases he
+            · cases he
+              obtain ⟨g2, g3⟩ := udSeq_good hrec path _ _ _ _ _ _ g1 hs
+              exact udGood_append (pres_alloc g2 _ _) gpv g3
     · -- tuple
       split at he
-      · rename_i xs tys _ _
-        split at he
+      · split at he
         · cases he; exact ⟨g1, gpv⟩
         · split at he
           · cases he
           · rename_i m2 xs' pvs hs
-            cases he
-            obtain ⟨g2, g3⟩ := udSeq_good hrec path _ _ _ _ _ _ g1 hs
-            exact udGood_append (pres_alloc g2 _ _) gpv g3
+            split at he
+            · cases he
+            · cases he
+              obtain ⟨g2, g3⟩ := udSeq_good hrec path _ _ _ _ _ _ g1 hs
+              exact udGood_append (pres_alloc (pres_alloc g2 _ _) _ _) gpv g3
       · cases he
     · -- map
       split at he
@@ -352,9 +354,11 @@ theorem udw_good {W : Addr → Prop} {m0 : Mem} :
         · split at he
           · cases he
           · rename_i m2 kvs' pvs hs
-            cases he
-            obtain ⟨g2, g3⟩ := udKV_good hrec path false _ _ _ _ _ g1 hs
-            exact udGood_append (pres_alloc g2 _ _) gpv g3
+            split at he
+            · cases he
+            · cases he
+              obtain ⟨g2, g3⟩ := udKV_good hrec path false _ _ _ _ _ g1 hs
+              exact udGood_append (pres_alloc g2 _ _) gpv g3
     · -- object
       split at he
       · split at he
@@ -362,9 +366,11 @@ theorem udw_good {W : Addr → Prop} {m0 : Mem} :
         · split at he
           · cases he
           · rename_i m2 kvs' pvs hs
-            cases he
-            obtain ⟨g2, g3⟩ := udKV_good hrec path true _ _ _ _ _ g1 hs
-            exact udGood_append (pres_alloc g2 _ _) gpv g3
+            split at he
+            · cases he
+            · cases he
+              obtain ⟨g2, g3⟩ := udKV_good hrec path true _ _ _ _ _ g1 hs
+              exact udGood_append (pres_alloc (pres_alloc g2 _ _) _ _) gpv g3
       · cases he
     · cases he
     · cases he; exact ⟨g1, gpv⟩
